@@ -494,7 +494,11 @@ class Lexer(object):
                         e(environment.block_end_string),
                         e(environment.block_end_string)
                     )] + [
-                        r'(?P<%s_begin>\s*%s\-|[ \t]*%s\*|%s)' % (n, r, r, prefix_re.get(n,r))
+                        r'(?P<%s_begin>\s*%s\-%s|%s)' % (
+                            n, r,
+                            # the auto-indent marker exists for blocks and variables only, not for comments
+                            (r'|[ \t]*%s\*' % r) if n not in ('comment', 'linecomment') else '',
+                            prefix_re.get(n,r))
                         for n, r in root_tag_rules
                     ])), (TOKEN_DATA, '#bygroup'), '#bygroup'),
                 # data
